@@ -7,7 +7,8 @@
   Model: `Rfc2822.parse_from_rfc2822` = `DateTime::parse_from_rfc2822`, `Rfc2822.to_rfc2822` =
   `DateTime::to_rfc2822` (Model/Rfc2822.lean over Model/Parse, Scan, ParsedResolve, Format).
 -/
-import Chrono.Proofs.Rfc2822StdL
+import Chrono.Proofs.Rfc2822ScanSoundL
+import Chrono.Proofs.ParsedZonedL
 import Chrono.Extracted.Rfc2822
 
 namespace Chrono.Props.C11
@@ -48,6 +49,81 @@ theorem denotation_unique (f : Fields) (z z' : Zoned) (h : Denotes f z) (h' : De
   simp only [] at hu a1 b1
   rw [hu, a1, b1]
 
+/-- **reader_sound** (soundness).  Whatever `parse_from_rfc2822` accepts is a string of the RFC 2822
+date-time grammar of the specification, its fields are valid (existing date in range, day-name — if
+any — the weekday of the date, time fields and offset in range, UTC reading in range), and the
+returned value is the one those fields denote.  With `reader_accepts_spec` and
+`denotation_unique`: `parse_from_rfc2822 s = Ok z` exactly when `s` spells valid fields denoting
+`z`; everything else is `Err` (`reader_total`: never a panic). -/
+theorem reader_sound (s : List Nat) (z : Zoned) (h : Rfc2822.parse_from_rfc2822 s = .ok (.ok z)) :
+    ∃ f, Rfc2822 s f ∧ Valid f ∧ Denotes f z := by
+  unfold Rfc2822.parse_from_rfc2822 at h
+  cases hp : Parse.parse Parsed.new s Rfc2822.ITEMS with
+  | error e => rw [hp] at h; cases h
+  | ok p =>
+    rw [hp] at h
+    simp only [] at h
+    have hscan : Parse.parse_rfc2822 Parsed.new s = .ok (p, []) := by
+      unfold Parse.parse Rfc2822.ITEMS Parse.parse_internal at hp
+      simp only [] at hp
+      cases hr : Parse.parse_rfc2822 Parsed.new s with
+      | error e => rw [hr] at hp; cases hp
+      | ok r =>
+        obtain ⟨p', s'⟩ := r
+        rw [hr] at hp
+        simp only [Parse.parse_internal] at hp
+        cases s' with
+        | nil => injection hp with hp; rw [hp]
+        | cons _ _ => cases hp
+    obtain ⟨f, hf, hr, hm, hy, rfl⟩ := scan_sound s p hscan
+    have hin := inType_parsedOf f hr hm (by omega)
+    obtain ⟨hv, hd⟩ := resolve_sound f hin z h
+    exact ⟨f, hf, hv, hd⟩
+
+/-- **reader_total.**  For every byte string the reader returns `Ok` or `Err` — it cannot panic
+(scanning is total by construction; field resolution of the scanned record by C14's `to_datetime`
+theorem). -/
+theorem reader_total (s : List Nat) : ∃ r, Rfc2822.parse_from_rfc2822 s = .ok r := by
+  unfold Rfc2822.parse_from_rfc2822
+  cases hp : Parse.parse Parsed.new s Rfc2822.ITEMS with
+  | error e => exact ⟨_, rfl⟩
+  | ok p =>
+    simp only []
+    have hscan : Parse.parse_rfc2822 Parsed.new s = .ok (p, []) := by
+      unfold Parse.parse Rfc2822.ITEMS Parse.parse_internal at hp
+      simp only [] at hp
+      cases hr : Parse.parse_rfc2822 Parsed.new s with
+      | error e => rw [hr] at hp; cases hp
+      | ok r =>
+        obtain ⟨p', s'⟩ := r
+        rw [hr] at hp
+        simp only [Parse.parse_internal] at hp
+        cases s' with
+        | nil => injection hp with hp; rw [hp]
+        | cons _ _ => cases hp
+    obtain ⟨f, _, hr, hm, hy, rfl⟩ := scan_sound s p hscan
+    obtain ⟨r, hr', _⟩ := Chrono.Proofs.ParsedRes.to_datetime_spec _ (inType_parsedOf f hr hm (by omega))
+    exact ⟨r, hr'⟩
+
+/-- acceptance is exactly validity on the grammar: a string spelling fields `f` (inside the setter
+ranges) is accepted iff `f` is valid -/
+theorem accepts_iff_valid (s : List Nat) (f : Fields) (h : Rfc2822 s f) (hr : SetterRanges f) :
+    (∃ z, Rfc2822.parse_from_rfc2822 s = .ok (.ok z)) ↔ Valid f := by
+  constructor
+  · rintro ⟨z, hz⟩
+    have hm : f.month ≤ 12 ∧ 0 ≤ f.year := by
+      obtain ⟨_, _, _, _, _, _, _, yy, _, _, _, _, _, _, _, _, _, _, _, _, _, _, _, _, hmn, _, _, _, hyv, _⟩ := h
+      obtain ⟨i, hi, _, hmi⟩ := hmn
+      have := yearOf_ge yy
+      omega
+    have hin := inType_parsedOf f hr hm.1 (by omega)
+    unfold Rfc2822.parse_from_rfc2822 at hz
+    rw [scanner_complete s f h hr] at hz
+    exact (resolve_sound f hin z hz).1
+  · intro hv
+    obtain ⟨z, hz, _⟩ := reader_accepts_spec s f h hv
+    exact ⟨z, hz⟩
+
 /-! ## the writer's standard form and the round trip -/
 
 /-- **writer_form_in_grammar.**  The standard form `Www, D Mon YYYY HH:MM:SS +HHMM` of any fields
@@ -56,23 +132,50 @@ string of the reader's grammar spelling exactly those fields. -/
 theorem writer_form_in_grammar (f : Fields) (h : StdFields f) : Rfc2822 (stdText f) f :=
   std_in_grammar f h
 
-/-- **roundtrip_partial.**  If `to_rfc2822` writes the standard form of valid fields `f`, parsing that
-text back succeeds and returns the one value that denotes `f` (same offset, instant `wall clock −
-offset` to whole seconds, leap second kept) — in particular the value `z0` = `z` truncated to whole
-seconds, whenever `f` are the wall-clock fields of `z` (`Denotes f z0`).
-MISSING for the unconditional `roundtrip`: the theorem `writer_shape` — for every well-formed `z` with
-wall-clock year 0–9999 and whole-minute offset, `to_rfc2822 z = .ok (stdText f)` for the wall-clock
-fields `f` of `z` (hypothesis `hw` here).  It is not proved; it is kernel-evaluated on the samples of
-`writer_shape_samples` and compared on every run: model text vs implementation text, and the
-implementation's text vs an independently formatted standard form, on 60 000 / 300 000 values. -/
-theorem roundtrip_partial (z : Zoned) (f : Fields) (hs : StdFields f) (hv : Valid f)
-    (hw : Rfc2822.to_rfc2822 z = .ok (stdText f)) :
-    ∃ z', Rfc2822.roundtrip z = .ok (.ok (.ok z')) ∧ Denotes f z' ∧ ∀ z0, Denotes f z0 → z' = z0 := by
-  obtain ⟨z', h1, h2⟩ := reader_accepts_spec (stdText f) f (std_in_grammar f hs) hv
-  refine ⟨z', ?_, h2, fun z0 h0 => denotation_unique f z' z0 h2 h0⟩
+/-- **writer_shape.**  For EVERY well-formed zone-aware value `z` (any sub-second part, any offset of
+less than a day) with wall-clock date `(Y, o)`: if the wall-clock year is in 0–9999, `to_rfc2822 z`
+is `Www, D Mon YYYY HH:MM:SS ` of the wall-clock fields — the day-name of the wall-clock date, the
+day without padding, the month name, the four-digit year, the time with second 60 for a leap
+second, sub-seconds dropped — followed by the zone as `shownZone z.off`: sign of the offset, then
+`HHMM` of the offset rounded to the nearest minute, ties away from zero (so `-0000` for −00:00:20,
+`+2400` for +23:59:40; for a whole-minute offset simply `±HHMM`).  Outside years 0–9999 the call
+panics, as documented.  Every value has exactly one wall-clock date (`wallDate_exists`, C04's
+`reading_unique`). -/
+theorem writer_shape (z : Zoned) (hz : ZInv z) (Y : Int) (o : Nat) (hw : WallDate z Y o) :
+    Rfc2822.to_rfc2822 z =
+      if 0 ≤ Y ∧ Y ≤ 9999 then .ok (stdHead (fieldsOf z Y o) ++ shownZone z.off) else .panic :=
+  to_rfc2822_shape z hz Y o hw
+
+/-- for a whole-minute offset that text is the standard form `stdText` of the wall-clock fields -/
+theorem writer_shape_whole_minute (z : Zoned) (hz : ZInv z) (Y : Int) (o : Nat) (hw : WallDate z Y o)
+    (hr : 0 ≤ Y ∧ Y ≤ 9999) (hoff : z.off % 60 = 0) :
+    Rfc2822.to_rfc2822 z = .ok (stdText (fieldsOf z Y o)) := by
+  rw [writer_shape z hz Y o hw, if_pos hr, stdText_eq (fieldsOf z Y o) hoff]
+  rfl
+
+/-- **roundtrip.**  Every well-formed value whose time of day is one the public constructors build
+(leap-second representation only on second 59 of a minute), with wall-clock year 0–9999 and a
+whole-minute offset: `parse_from_rfc2822(&z.to_rfc2822())` is `Ok` of `z` truncated to whole
+seconds — same instant to the second, the leap second preserved, the same offset. -/
+theorem roundtrip (z : Zoned) (hz : ZInv z) (hs : TStrict z.utc.time) (Y : Int) (o : Nat)
+    (hw : WallDate z Y o) (hr : 0 ≤ Y ∧ Y ≤ 9999) (hoff : z.off % 60 = 0) :
+    Rfc2822.roundtrip z = .ok (.ok (.ok (truncSecs z))) := by
+  obtain ⟨h1, h2, h3⟩ := fieldsOf_facts z hz hs Y o hw hr hoff
+  obtain ⟨z', p1, p2⟩ := reader_accepts_spec _ _ (std_in_grammar _ h1) h2
+  have := denotation_unique _ z' (truncSecs z) p2 h3
+  subst this
   unfold Rfc2822.roundtrip
-  rw [hw]
-  simp only [h1]
+  rw [writer_shape_whole_minute z hz Y o hw hr hoff]
+  simp only [p1]
+
+/-- non-vacuity of `writer_shape` / `roundtrip`: the leap second 2016-12-31T23:59:60.5Z seen at +05:30
+(wall clock 2017-01-01, day 1) meets every hypothesis; a value at −00:00:20 shows `-0000` -/
+example : ZInv ⟨⟨dateOfYo 2016 366, ⟨86399, 1500000000⟩⟩, 19800⟩ ∧
+    TStrict (⟨86399, 1500000000⟩ : Time) ∧
+    WallDate ⟨⟨dateOfYo 2016 366, ⟨86399, 1500000000⟩⟩, 19800⟩ 2017 1 ∧
+    shownZone (-20) = [45, 48, 48, 48, 48] ∧ shownZone 86380 = [43, 50, 52, 48, 48] := by
+  unfold WallDate
+  decide +kernel
 
 /-- **writer_shape_samples** (kernel evaluation of the writer model on boundary values, not a
 universal statement): 1970-01-01T00:00Z shown at +01:00; the leap second 2016-12-31T23:59:60Z shown at
@@ -90,14 +193,6 @@ theorem writer_shape_samples :
     Rfc2822.to_rfc2822 ⟨⟨dateOfYo 9999 365, ⟨86399, 0⟩⟩, 60⟩ = .panic ∧
     Rfc2822.to_rfc2822 ⟨⟨dateOfYo 0 1, ⟨0, 0⟩⟩, -60⟩ = .panic := by
   decide +kernel
-
-/-- non-vacuity of `roundtrip_partial`: the leap-second sample meets every hypothesis -/
-example : StdFields ⟨some .sun, 1, 1, 2017, 5, 29, some 60, 19800⟩ ∧
-    Valid ⟨some .sun, 1, 1, 2017, 5, 29, some 60, 19800⟩ ∧
-    Rfc2822.to_rfc2822 ⟨⟨dateOfYo 2016 366, ⟨86399, 1500000000⟩⟩, 19800⟩
-      = .ok (stdText ⟨some .sun, 1, 1, 2017, 5, 29, some 60, 19800⟩) := by
-  refine ⟨⟨⟨_, rfl⟩, by decide, by decide, by decide, by decide, by decide, by decide, by decide, by decide,
-    ⟨60, rfl, by decide⟩, by decide, by decide, by decide⟩, by unfold Valid; decide, writer_shape_samples.2.1⟩
 
 /-! ## a contradicting day-name is rejected -/
 
